@@ -8,7 +8,9 @@
    text / crypto layer (exercised by the driver's oracle).  The remaining 29 kinds (nested Message
    objects, JSON-text kinds, identity assurance) are pinned in Model/MsgKinds.v and decided by the
    oracle on the real code only; the known findings form:message, form:message-list, form:dict,
-   form:extra, form:ia-*, json:ia-* live there. *)
+   form:extra, form:ia-*, json:ia-* live there.  For nested messages the step that is modelled is the
+   nested deserializer itself (deserialize_from_one_of, Model/Msg.v one_of): which wire format the nested
+   value is read as, for nested classes of the modelled fragment (C10_nested_dict_roundtrip, C10_nested_form_partial). *)
 From Coq Require Import String.
 From Verif Require Import Lib.Base Lib.PyStr Lib.Urlenc Lib.Utf8 Lib.Qs Lib.MsgSchema Gen.Schema
   Model.Msg Model.MsgKinds Model.MsgRules Model.MsgCheck Proofs.Qs_proofs Proofs.Msg_proofs Proofs.MsgTable_proofs.
@@ -46,6 +48,25 @@ Theorem C10_dict_roundtrip :
   exists d r, to_dict c m = Ok d /\ construct c d = Ok r /\ same_entries r m.
 Proof. intros c _. exact (dict_roundtrip c). Qed.
 Print Assumptions C10_dict_roundtrip.
+
+(* ---- nested messages (the helper deserialize_from_one_of behind address_deser, claims_deser, the nested
+        registration request and the identity-assurance deserializers; Model/Msg.v one_of) ----
+   A nested message of any class of the table, valid for its schema, handed to the nested deserializer as
+   the dict of the nested object under sformat dict or json (= its JSON text, trusted text layer) comes back
+   with exactly its entries, whatever characters its strings hold ("=", "&", "+", "%", "#" included: the
+   JSON reading is tried before the form reading). *)
+Theorem C10_nested_dict_roundtrip :
+  forall c, In c all_classes -> forall m f, valid_msg c m = true -> f <> WUrl ->
+  exists d r, to_dict c m = Ok d /\ one_of c f (VDict d) = Ok r /\ same_entries r m.
+Proof. intros c _. exact (nested_dict_roundtrip c). Qed.
+Print Assumptions C10_nested_dict_roundtrip.
+
+(* the same helper on form text (sformat urlencoded), under the guard of finding F17 *)
+Theorem C10_nested_form_partial :
+  forall c, In c all_classes -> forall m, valid_form c m = true -> list_elems_no_space c m = true ->
+  exists t r, to_urlencoded c m = Ok t /\ one_of c WUrl (VStr t) = Ok r /\ form_entries_of r m.
+Proof. intros c _. exact (nested_form_roundtrip c). Qed.
+Print Assumptions C10_nested_form_partial.
 
 (* ---- form encoding ----
    Full statement (FALSE of the faithful model, known finding F17 `space-in-list-element`):
@@ -91,6 +112,21 @@ Example C10_nonvacuous :
                 end
       | _ => False
       end
+  | None => False
+  end.
+Proof. vm_compute. repeat split; reflexivity. Qed.
+
+(* a nested address whose strings hold form metacharacters survives the nested deserializer *)
+Definition ex_nested_class : pystr := PS "idpyoidc.message.oidc.AddressClaim".
+Definition ex_nested : msg :=
+  [(PS "street_address", VStr (PS "c/o R&D, Room=12")); (PS "locality", VStr [85; 109; 101; 229]);
+   (PS "x_note", VStr (PS "https://rp.example/cb?a=1&b=2#f+%"))].
+Example C10_nested_nonvacuous :
+  match find_class ex_nested_class all_classes with
+  | Some c => valid_msg c ex_nested = true
+              /\ (d <- to_dict c ex_nested ;; one_of c WDict (VDict d)) = Ok ex_nested
+              /\ (d <- to_dict c ex_nested ;; one_of c WJson (VDict d)) = Ok ex_nested
+              /\ (t <- to_urlencoded c ex_nested ;; one_of c WUrl (VStr t)) = Ok ex_nested
   | None => False
   end.
 Proof. vm_compute. repeat split; reflexivity. Qed.
